@@ -5,5 +5,6 @@ CONSTANTS
   Spurious = TRUE
   EarlyQuit = TRUE
   MayIgnoreFlag = TRUE
+  Mutant = "none"
 INVARIANTS Safety LastRunComplete
 POSTCONDITION Accepted
